@@ -411,6 +411,10 @@ def make_agent_class():
                 if op == "place":
                     self._place(market, txn, a)
                     return
+                if op == "create":
+                    # create the order on its trade now, place it later (second leg of a multi-order trade)
+                    self._place(market, txn, a, create_only=True)
+                    return
                 if op == "bulk_place":
                     t = market.transaction(client=self._client())
                     with t:
@@ -465,6 +469,16 @@ def make_agent_class():
                         return
                     order = lst[i]
                 kw = {"force": True} if a.get("force") else {}
+                if op == "place_pending":
+                    # place an order that was created earlier and never placed
+                    cand = [o for o in lst if o.status is None]
+                    if not cand:
+                        run.res.probes["agent.dangling"] += 1
+                        return
+                    o2 = cand[0]
+                    r = txn.place_order(o2, **kw) if txn is not market else txn.place_order(o2, client=self._client(), **kw)
+                    run.res.probes["agent.place_pending.%s" % ("ok" if r else "refused")] += 1
+                    return
                 if op == "place_again":
                     r = txn.place_order(order, **kw) if txn is not market else txn.place_order(order, client=self._client(), **kw)
                     run.res.probes["agent.place_again.%s" % ("ok" if r else "refused")] += 1
@@ -509,13 +523,15 @@ def make_agent_class():
                 return market.market_book.version
             return market.market_book.version + int(mv)
 
-        def _place(self, market, txn, a):
+        def _place(self, market, txn, a, create_only=False):
             run = self.run
             F = _F
             sel, side = a["sel"], a["side"]
             hc = a.get("hc", 0)
             trades = self.trades.setdefault(market.market_id, [])
             t = a.get("trade")
+            if t is not None and t < 0:
+                t = len(trades) + t
             if t is not None and 0 <= t < len(trades) and trades[t].status.name == "LIVE":
                 sel = trades[t].selection_id  # an order always lives on its trade's selection
             if self.spec.get("discipline"):
@@ -562,6 +578,9 @@ def make_agent_class():
             lst = self.orders.setdefault(market.market_id, [])
             lst.append(order)
             self.seen.add(id(order))
+            if create_only:
+                run.res.probes["agent.create_unplaced"] += 1
+                return
             mv = self._mv(market, a.get("mv"))
             kw = {"force": True} if a.get("force") else {}
             if txn is market:
